@@ -534,7 +534,7 @@ def _iteration_paths(ctx, g: CFG, at, head, in_loop, outer, hdr_node, msg_node, 
             done = lambda n: any(m is n and lab != "exc" for m, lab in p)
             parsed = done(msg_node)
             n_drop = sum(1 for m, lab in p if m in drop_nodes and lab != "exc")
-            n_disp = sum(1 for m, lab in p if m in disp and lab != "exc")
+            n_disp = sum(1 for m, lab in p if m in disp)
             cons = "work_read_queue:iteration-path"
             ctx.inst(cons, nontrivial=False)
             if parsed and (n_drop != 1 or n_disp != 1):
